@@ -131,15 +131,16 @@ End Loops.
 Section Msg.
 Variables dec2f dec2d : list Z -> Z.
 
-Theorem message_reads_tl o addr vs text w tl :
+Theorem message_reads_tl o addr vs text w :
   compress o = true -> good_addr addr -> Forall goodc vs -> Z.of_nat (length vs) < 2 ^ 31 ->
-  print_message o addr vs 0 = Some (text, w) -> tail_ok tl ->
+  print_message o addr vs 0 = Some (text, w) ->
   exists slots,
+    expand slots = Some vs /\ (exists sfx, text = addr ++ sfx) /\
+    forall tl, tail_ok tl ->
     count_printed_arg_vals_of_msg dec2f dec2d (text ++ 10 :: tl) = Ok (true, Z.of_nat (length slots)) /\
-    scan_message dec2f dec2d (text ++ 10 :: tl) (Z.of_nat (length slots)) = Ok (addr, slots, tl) /\
-    expand slots = Some vs.
+    scan_message dec2f dec2d (text ++ 10 :: tl) (Z.of_nat (length slots)) = Ok (addr, slots, tl).
 Proof.
-  intros Hon [[ar Ea] Hns] Hg Hlen Hp Htl. unfold print_message in Hp.
+  intros Hon [[ar Ea] Hns] Hg Hlen Hp. unfold print_message in Hp.
   destruct (print_vals_loop (S (length vs)) o vs None 0 (Z.of_nat (length vs)) addr true 0
               (0 + (len addr + 1)) (if 0 + (len addr + 1) =? 0 then 0 else 1)) as [[t w']|] eqn:El;
     [|discriminate].
@@ -152,12 +153,13 @@ Proof.
   destruct vs as [|v vs'].
   - (* no values: "addr SP NL tail" *)
     cbn in El. inversion El; subst t w'. cbn [length Z.of_nat Z.eqb].
+    exists []. split; [reflexivity|]. split; [eexists; reflexivity|]. intros tl Htl.
     rewrite <- app_assoc. cbn [app].
     assert (Hd := dropwhile_nonspace addr (32 :: 10 :: tl) Hns (or_intror eq_refl)). destruct Hd as [Hd Ht].
-    exists []. unfold count_printed_arg_vals_of_msg, scan_message.
+    unfold count_printed_arg_vals_of_msg, scan_message.
     rewrite !Hnw, !Hsk, !Hhd. cbn [Z.eqb Pos.eqb negb]. rewrite Hd, Ht.
     assert (Hws : skip_ws (32 :: 10 :: tl) = tl) by (destruct Htl as [->|[r ->]]; reflexivity).
-    rewrite Hws. split; [|split; [|reflexivity]].
+    rewrite Hws. split.
     + unfold count_printed_arg_vals. rewrite Hws.
       destruct Htl as [->|[r ->]]; [reflexivity|].
       rewrite skip_comments_ws_no by lia. reflexivity.
@@ -169,16 +171,18 @@ Proof.
     assert (Hz : (Z.of_nat (length (v :: vs')) =? 0) = false) by (apply Z.eqb_neq; cbn [length]; lia). rewrite !Hz.
     destruct its as [|it its']; [congruence|].
     destruct (iseq_first dec2f dec2d _ _ _ _ HL) as (c & r & -> & Hc).
+    exists (islots (it :: its')). split; [rewrite <- Horig; exact (expand_items dec2f dec2d _ _ _ HL)|].
+    split; [cbv iota; eexists; reflexivity|].
+    intros tl Htl.
     cbv iota. rewrite <- !app_assoc. cbn [app].
     assert (Hsp : sepz ++ c :: r ++ 10 :: tl = [] \/ isspace (hd0 (sepz ++ c :: r ++ 10 :: tl)) = true).
     { right. destruct Hsep as [Hne' Hall]. destruct sepz as [|x s]; [congruence|]. now inversion Hall. }
     destruct (dropwhile_nonspace addr (sepz ++ c :: r ++ 10 :: tl) Hns Hsp) as [Hd Ht].
     assert (Hws : skip_ws (sepz ++ c :: r ++ 10 :: tl) = c :: r ++ 10 :: tl).
     { apply skip_ws_sep; [apply Hsep|]. rewrite hd0_cons. apply Hc. }
-    exists (islots (it :: its')).
     unfold count_printed_arg_vals_of_msg, scan_message.
     rewrite !Hnw, !Hsk, !Hhd. cbn [Z.eqb Pos.eqb negb]. rewrite Hd, Ht, Hws.
-    split; [|split].
+    split.
     + unfold count_printed_arg_vals. rewrite Hws.
       destruct Hc as (H0 & H47 & H37 & Hsp' & H46 & H40).
       rewrite skip_comments_ws_no by assumption.
@@ -192,6 +196,5 @@ Proof.
         { clear. generalize (it :: its'). intros its. unfold islots. induction its as [|x its IH]; [cbn; lia|].
           cbn [map concat length]. rewrite app_length. destruct x; cbn [item_slots length]; lia. }
         rewrite Nat2Z.id. lia.
-    + rewrite <- Horig. exact (expand_items dec2f dec2d _ _ _ HL).
 Qed.
 End Msg.
